@@ -584,8 +584,13 @@ func (c *CqlClientConnection) ReceiveEvent() (*frame.Frame, error) {
 	if c.IsClosed() {
 		return nil, fmt.Errorf("%v: connection closed", c)
 	}
+	// read the field once: Close sets it to nil before closing the channel, and receiving from a nil channel blocks
+	events := c.events
+	if events == nil {
+		return nil, fmt.Errorf("%v: connection closed", c)
+	}
 	select {
-	case incoming, ok := <-c.events:
+	case incoming, ok := <-events:
 		if !ok {
 			return nil, fmt.Errorf("%v: incoming events channel closed", c)
 		}
